@@ -197,7 +197,10 @@ func assertf(fails *[]string, cond bool, format string, args ...interface{}) {
 // sub-slices of larger buffers; an `append` on such an argument writes into the caller's memory.
 func guarded[T comparable](fails *[]string, what string, s []T, fill func(i int) T) ([]T, func()) {
 	const g = 24
-	arena := make([]T, g+len(s)+g)
+	// the spare capacity behind the slice is larger than the slice itself (an `append` of a vector
+	// of the same length, e.g. append(a, b...), then stays inside the caller's buffer)
+	rear := len(s) + g
+	arena := make([]T, g+len(s)+rear)
 	for i := range arena {
 		arena[i] = fill(i)
 	}
